@@ -25,7 +25,7 @@ def bounds(tier):
 def configs(tier, seed):
     q = 0 if tier == "quick" else 1
     out = []
-    grid = [(4, 1, 2), (4, 2, 2), (4, 3, 2), (8, 2, 1), (8, 3, 1), (8, 5, 1), (4, 1, 3), (4, 2, 3)] + ([(8, 3, 2), (16, 4, 1), (4, 3, 3)] if q else [])
+    grid = [(4, 1, 2), (4, 2, 2), (4, 3, 2), (8, 2, 1), (8, 3, 1), (8, 5, 1), (4, 1, 3), (4, 2, 3), (4, 1, 4)] + ([(8, 3, 2), (16, 4, 1), (4, 3, 3)] if q else [])
     for n, hm, T in grid:
         for part in ["B", "RB", "DB", "K2"]:
             if part in ("DB", "K2") and not (n == 4 and hm == 3):
